@@ -6,7 +6,7 @@ Open Scope string_scope.
 
 Inductive c07case :=
   mk_c07 (oracle : url_table) (cfg : protocol) (ns bytes : string)
-         (impl : option (string * string * string * json)) (bytes_same : bool)
+         (impl : option (string * string * string * json)) (bytes_same : bool) (stable : bool)
          (seen_time : option (Z * Z)) (seen_origin : option json)
          (expect : bool) (exp_suffix : string) (exp_origin : json) (reject_time reject_origin : bool).
 
@@ -19,8 +19,10 @@ Definition opt_zz_eqb (a b : option (Z * Z)) : bool :=
 
 Definition judge_c07 (c : c07case) : verdict :=
   match c with
-  | mk_c07 t cfg ns bytes impl same st so expect esfx eorigin rt ro =>
+  | mk_c07 t cfg ns bytes impl same stable st so expect esfx eorigin rt ro =>
       let accepted := match impl with Some _ => true | None => false end in
+      (* the same request submitted again to the same parser instance must get the same answer *)
+      if negb stable then SpecFail 10 else
       (* ground truth first *)
       if negb (Bool.eqb accepted expect) then SpecFail 1 else
       match impl with
